@@ -63,7 +63,8 @@ pub fn run_one(scn: &Scenario, trace: bool) -> Result<ScenarioResult, String> {
     std::fs::create_dir_all(&dir).map_err(|e| format!("cannot create {}: {e}", dir.display()))?;
     let cfg = dir.join("statime.toml");
     let scf = dir.join("scenario.json");
-    let w = std::fs::write(&cfg, scn.config_toml()).and_then(|_| std::fs::write(&scf, serde_json::to_string(scn).unwrap()));
+    let obs = dir.join("observe.sock");
+    let w = std::fs::write(&cfg, scn.config_toml(if scn.observe_ms.is_some() { Some(obs.as_path()) } else { None })).and_then(|_| std::fs::write(&scf, serde_json::to_string(scn).unwrap()));
     if let Err(e) = w {
         let _ = std::fs::remove_dir_all(&dir);
         return Err(format!("cannot write worker input: {e}"));
@@ -205,6 +206,8 @@ pub fn budget(property: &str, tier: Tier) -> u64 {
         ("C15", Tier::Thorough) => 200_000,
         ("C12", Tier::Quick) => 3500,
         ("C12", Tier::Thorough) => 80_000,
+        ("C19", Tier::Quick) => 6000,
+        ("C19", Tier::Thorough) => 100_000,
         _ => 0,
     };
     ((base as f64 * budget_scale()) as u64).max(8)
@@ -466,6 +469,7 @@ pub fn check(property: &str, tier: Tier) -> i32 {
         .collect();
     let rule = match property {
         "C15" => "a scenario is non-trivial when, by the end of the warm-up, the port facing the scripted parent has stopped announcing (slave) and every other port announces the parent's grandmaster, and at least one propagating TLV reached the slave port afterwards; distinct = distinct fingerprints of (port modes, intervals, timeouts, path-trace, slave port, endpoint placement and quality class, per TLV burst: phase bucket relative to the nominal BMCA run, number of propagating and other TLVs; fault kinds)",
+        "C19" => "a scenario is non-trivial when at least one document read from the real observation socket shows a slave port with a non-zero offset_from_master (the filter has measurements); the probes count the BMCA rounds in which the BMCA itself took the slave role away or moved it; distinct = distinct fingerprints of (port modes, delay mechanisms, intervals, endpoints and their quality classes, step sequence, fault kinds)",
         _ => "every scenario evaluates the tail oracle on every port (non-trivial when the daemon booted and the tail ran); distinct = distinct fingerprints of (port modes, delay mechanisms, intervals, timeouts, endpoints, prelude step sequence, fault kinds, tail variant)",
     };
     let evidence = json!({
@@ -491,7 +495,7 @@ pub fn check(property: &str, tier: Tier) -> i32 {
             "components": {
                 "real": [
                     "statime-linux/src/main.rs unmodified, included verbatim: actual_main (clap argument parsing, config file, instance and port construction, socket opening, task spawning), run (stop-the-world BMCA loop), port_task, ethernet_port_task, handle_actions, handle_actions_ethernet, Timer, Timers, get_clock_id",
-                    "statime-linux library unmodified (shadow manifest): config parsing, socket.rs (multicast groups, ports), clock/mod.rs LinuxClock, tlvforwarder.rs TlvForwarder, observer::spawn (returns at once: no observation-path), tracing/logging initialisation",
+                    "statime-linux library unmodified (shadow manifest): config parsing, socket.rs (multicast groups, ports), clock/mod.rs LinuxClock, tlvforwarder.rs TlvForwarder, observer::spawn / observer / write_json (C19: serving the observation socket after every BMCA round; C12, C15: no observation-path, returns at once), metrics::exporter::ObservableState (C19: the reader's type), tracing/logging initialisation",
                     "statime library (PtpInstance, Port state machines, BMCA, Kalman filter steering the simulated system clock)",
                     "tokio 1.x runtime (current-thread, paused clock, seeded select!), tokio::time, sync::{mpsc, watch, broadcast}",
                     "toml, serde, clap, rand's StdRng algorithm (seeded from the scenario)"
@@ -500,7 +504,8 @@ pub fn check(property: &str, tier: Tier) -> i32 {
                     "timestamped-socket (facade simsock: simulated interfaces, sockets, multicast membership, receive/transmit timestamps, 200 ms timestamp timeout)",
                     "clock-steering (facade simclock: system clock as an affine function of virtual time, adjustable by set_frequency/step_clock)",
                     "rand::rngs::StdRng::from_entropy (facade simrand: seed from the scenario instead of the OS)",
-                    "every other PTP node (scripted endpoints speaking through the independent reference codec ptpsim::wire)",
+                    "tokio::net (in-memory UnixListener/UnixStream of expsim's simtokio facade; C19: the real observer task serves the observation socket through it; everything else of tokio is the real crate)",
+                    "every other PTP node (scripted endpoints speaking through the independent reference codec ptpsim::wire); C19: the unix client of the observation socket is the harness",
                     "hardware clocks / start_clock_task (every port uses hardware-clock = \"none\"; clock_task is compiled but not started)"
                 ]
             },
@@ -548,6 +553,61 @@ pub fn check(property: &str, tier: Tier) -> i32 {
     } else {
         0
     }
+}
+
+/// `daemonsim merge-evidence <ID>`: merge `<ID>.daemon.part.json` into `<ID>.json` the way
+/// vcommon::batch::merge_parts does for the ptpsim checks (counts added, three samples appended,
+/// the part kept under coverage.parts.daemon, violations and wall time added; the part file is
+/// consumed). For properties whose main evidence is written by an engine that does not merge parts
+/// itself (C19: expsim). Run it after both checks.
+pub fn merge_evidence(property: &str) -> i32 {
+    let evdir = out_root().join("evidence");
+    let main_p = evdir.join(format!("{property}.json"));
+    let part_p = evdir.join(format!("{property}.daemon.part.json"));
+    let read = |p: &Path| std::fs::read_to_string(p).ok().and_then(|t| serde_json::from_str::<serde_json::Value>(&t).ok());
+    let Some(part) = read(&part_p) else {
+        eprintln!("HARNESS-ERROR: no readable {}", part_p.display());
+        return 2;
+    };
+    let Some(mut ev) = read(&main_p) else {
+        eprintln!("HARNESS-ERROR: no readable {} (run the main check first)", main_p.display());
+        return 2;
+    };
+    let cov = part["coverage"].clone();
+    let num = |v: &serde_json::Value, k: &str| v.get(k).and_then(|x| x.as_u64()).unwrap_or(0);
+    {
+        let c = &mut ev["coverage"];
+        c["evaluations"] = json!(num(c, "evaluations") + num(&cov, "evaluations"));
+        c["distinct_nontrivial"] = json!(num(c, "distinct_nontrivial") + num(&cov, "distinct_nontrivial"));
+        let mut samples = c["samples"].as_array().cloned().unwrap_or_default();
+        samples.extend(cov["samples"].as_array().cloned().unwrap_or_default().into_iter().take(3));
+        c["samples"] = json!(samples);
+        let mut fams = c["families"].as_array().cloned().unwrap_or_default();
+        fams.extend(cov["families"].as_array().cloned().unwrap_or_default());
+        c["families"] = json!(fams);
+        for k in ["faults_fired", "probes"] {
+            if let Some(m) = cov.get(k).and_then(|m| m.as_object()) {
+                for (kk, vv) in m {
+                    let cur = c[k].get(kk).and_then(|x| x.as_u64()).unwrap_or(0);
+                    c[k][kk] = json!(cur + vv.as_u64().unwrap_or(0));
+                }
+            }
+        }
+        let mut kept = cov.clone();
+        if let Some(o) = kept.as_object_mut() {
+            o.remove("samples");
+        }
+        c["parts"]["daemon"] = kept;
+    }
+    ev["violations"] = json!(num(&ev, "violations") + num(&part, "violations"));
+    ev["wall_s"] = json!(ev["wall_s"].as_f64().unwrap_or(0.0) + part["wall_s"].as_f64().unwrap_or(0.0));
+    if let Err(e) = std::fs::write(&main_p, serde_json::to_string_pretty(&ev).unwrap()) {
+        eprintln!("HARNESS-ERROR: cannot write {}: {e}", main_p.display());
+        return 2;
+    }
+    std::fs::remove_file(&part_p).ok();
+    println!("merged {} into {}", part_p.display(), main_p.display());
+    0
 }
 
 /// `daemonsim replay <file> [--quiet]`
@@ -604,16 +664,19 @@ pub fn selftest() -> i32 {
     let seed = base_seed();
     let n15 = ((500.0 * budget_scale()) as u64).max(4);
     let n12 = ((400.0 * budget_scale()) as u64).max(4);
+    let n19 = ((300.0 * budget_scale()) as u64).max(4);
     let gen = |i: u64| {
-        if i < n15 {
+        let mut s = if i < n15 {
             generate("C15", seed, i, Tier::Quick)
+        } else if i < n15 + n12 {
+            generate("C12", seed, i - n15, Tier::Quick)
         } else {
-            let mut s = generate("C12", seed, i - n15, Tier::Quick);
-            s.id = i;
-            s
-        }
+            generate("C19", seed, i - n15 - n12, Tier::Quick)
+        };
+        s.id = i;
+        s
     };
-    let total = n15 + n12;
+    let total = n15 + n12 + n19;
     let scenarios: Vec<Scenario> = (0..total).map(|i| gen(i)).collect();
     let t0 = Instant::now();
     let a = run_batch(total, &gen, 5, false, u64::MAX);
@@ -652,7 +715,7 @@ pub fn selftest() -> i32 {
         println!("fingerprint {p} = {:016x}", f.finish());
     }
     println!(
-        "selftest: {} scenarios ({} C15 + {} C12) run twice (5 workers forward in {:.1}s, {} workers backward in {:.1}s): {} with violations, {} differences, harness errors {}",
+        "selftest: {} scenarios ({} C15 + {} C12 + {n19} C19) run twice (5 workers forward in {:.1}s, {} workers backward in {:.1}s): {} with violations, {} differences, harness errors {}",
         scenarios.len(),
         n15,
         n12,
